@@ -180,7 +180,7 @@ def pick(en, choice):
 
 
 def run(cfg, choices=None, events=None):
-    d = Driver(cfg, model=False)
+    d = Driver({k: v for k, v in cfg.items() if k != 'rib'}, model=False, sim_config={'rib': bool(cfg.get('rib'))})
     mon = Mon()
     res = []
     nontrivial = False
@@ -202,7 +202,7 @@ def run(cfg, choices=None, events=None):
 def kinds_case(case):
     """one well-formed UPDATE of the given kind on a fresh Established session: received Updates goes from 0 to 1"""
     name, body = BODIES[case['body']]
-    sim, c = ss.new_established(as4=True)
+    sim, c = ss.new_established(as4=True, rib=bool(case.get('rib')))
     r = sim.reactor
     for i in range(case.get('before', 0)):
         r.peer_send(c, ss.marked_update(i + 1)[0])
@@ -225,15 +225,15 @@ def kinds_case(case):
 
 
 def shards(tier):
-    return [{'name': 'update-kinds', 'kind': 'kinds'}] + [{'name': 'walks-%d' % i, 'kind': 'hyp', 'examples': 150 if tier == 'quick' else 8000, 'hypothesis': True,
+    return [{'name': 'update-kinds', 'kind': 'kinds'}] + [{'name': 'walks-%d' % i, 'kind': 'hyp', 'examples': 500 if tier == 'quick' else 8000, 'hypothesis': True,
              'steps': 40 if tier == 'quick' else 80} for i in range(8 if tier == 'quick' else 16)]
 
 
 def run_shard(spec, seed, col, tier):
     if spec['kind'] == 'kinds':
         for k in range(len(BODIES)):
-            for before in (0, 2):
-                case = {'k': 'kinds', 'body': k, 'before': before, 'name': BODIES[k][0]}
+            for before, rib in ((0, False), (2, False), (0, True), (2, True)):
+                case = {'k': 'kinds', 'body': k, 'before': before, 'rib': rib, 'name': BODIES[k][0]}
                 res = kinds_case(case)
                 col.case(case, True, labels=['update-kinds'])
                 for sig, detail in res:
@@ -247,7 +247,8 @@ def run_shard(spec, seed, col, tier):
         for sig, detail in res:
             col.fail(sig, explicit, detail)
     strat = st.fixed_dictionaries({'cfg': st.sampled_from([{'hold': 180, 'idle_hold': 30, 'connect_retry': 60},
-                                                           {'hold': 9, 'idle_hold': 5, 'connect_retry': 60}]),
+                                                           {'hold': 9, 'idle_hold': 5, 'connect_retry': 60},
+                                                           {'hold': 180, 'idle_hold': 30, 'connect_retry': 60, 'rib': True}]),
                                    'choices': st.lists(st.integers(0, 99999), min_size=spec['steps'] // 2, max_size=spec['steps'])})
     hyp_run(col, strat, body, seed, spec['examples'])
 
